@@ -159,7 +159,7 @@ def plot_diagrams(
     if title is not None:
         ax.set_title(title)
 
-    if legend is True:
+    if legend:
         ax.legend(loc="lower right")
 
     if show is True:
